@@ -41,7 +41,7 @@ class Harness(cm.BaseB):
                 yield {"k": "trough", "V": chunk["V"], "C": C}
         else:
             for bad in BAD_IDS:
-                for op in ("aspirate", "dispense", "transfer_src", "transfer_dst", "distribute", "evo_aspirate", "evo_dispense", "add", "remove"):
+                for op in ("aspirate", "dispense", "transfer_src", "transfer_dst", "distribute", "evo_aspirate", "evo_dispense", "add", "remove", "dispense0", "add0", "aspirate0", "transfer0"):
                     for lw in ("P", "T"):
                         yield {"k": "bad", "dev": chunk["dev"], "op": op, "id": bad, "lw": lw}
             yield {"k": "emit", "dev": chunk["dev"]}
@@ -151,6 +151,11 @@ class Harness(cm.BaseB):
             "evo_dispense": ["evo_dispense", "w", lw, ["A01", bad], [10, 1], [1, 2], 10, "LC", {}],
             "add": ["add", lw, [bad], 10, {}],
             "remove": ["remove", lw, ["A01", bad], 10, {}],
+            # the non-existent well is paired with a volume of exactly zero
+            "dispense0": ["dispense", "w", lw, ["A01", bad], [10, 0], {}],
+            "add0": ["add", lw, [bad, "A01"], [0, 10], {}],
+            "aspirate0": ["aspirate", "w", lw, [bad], 0, {}],
+            "transfer0": ["transfer", "w", "Q", ["A01", "B01"], lw, ["A01", bad], [10, 0], {}],
         }[op]
         g = Geo(lw, "plate" if lw == "P" else "trough", 2, 6 if lw == "P" else 3)
         if g.exists(bad):
@@ -195,4 +200,18 @@ class Harness(cm.BaseB):
                     p = gwl.parse(recs[0])
                     if p["position"] != g.position(dev, w) or g.decode(dev, p["position"]) != g.real(w) or p["label"] != lw:
                         V.append(("C08/emitted-position", f"{case['dev']}.{op} {lw}.{w}: {recs[0]!r}, expected position {g.position(dev, w)}"))
+        # the source range of a reagent distribution names all virtual rows of the requested trough column
+        # (virtual rows are counted on both devices for the R record, see DESIGN section 3)
+        for vr, cols in ((2, 3), (3, 2), (4, 1), (1, 4), (8, 3)):
+            for col in range(cols):
+                tr = rt.Trough("T", vr, cols, min_volume=0, max_volume=1e5, initial_volumes=[5e4] * cols)
+                pl = rt.Labware("P", 2, 6, min_volume=0, max_volume=1e4)
+                wl = getattr(rt, case["dev"])(max_volume=950)
+                wl.distribute(tr, col, pl, ["A01", "B02"], volume=10)
+                n += 1
+                p = gwl.parse(wl[-1])
+                if (p["src_start"], p["src_end"]) != (1 + col * vr, (col + 1) * vr) or p["src_label"] != "T":
+                    V.append(("C08/emitted-position", f"{case['dev']}.distribute from column {col} of a {vr}-virtual-row x {cols} trough: source range {p['src_start']}..{p['src_end']}, expected {1 + col * vr}..{(col + 1) * vr}"))
+                if (p["dst_start"], p["dst_end"], p["exclude"]) != (1, 4, [2, 3]):
+                    V.append(("C08/emitted-position", f"{case['dev']}.distribute to A01, B02 of a 2x6 plate: {wl[-1]!r}"))
         return "emit", repr(case), V
